@@ -301,6 +301,27 @@ func (a *muxAnalysis) observedUpTo(s *streamObs, msn int) bool {
 	return true
 }
 
+// observedAfter reports whether every segment of the stream after media sequence number msn, up to the last one
+// of the final playlist, was fetched by the harness.
+func (a *muxAnalysis) observedAfter(s *streamObs, msn int) bool {
+	if len(s.history) == 0 {
+		return false
+	}
+	seen := map[int]bool{}
+	for _, obj := range a.o.order {
+		if obj.stream == s && obj.kind == "segment" {
+			seen[obj.msn] = true
+		}
+	}
+	pl := s.history[len(s.history)-1].pl
+	for m := msn + 1; m < pl.MediaSequence+len(pl.Segments); m++ {
+		if !seen[m] {
+			return false
+		}
+	}
+	return true
+}
+
 func mod33(v int64) int64 { return ((v % (1 << 33)) + (1 << 33)) % (1 << 33) }
 
 // oracleC01: gap-free, byte-identical, ordered runs with the written timestamps.
@@ -425,7 +446,11 @@ func (a *muxAnalysis) oracleC01() {
 						}
 					}
 				}
-				if want >= starts[ts.id] && lastIdx != want {
+				if s := a.streamOfTrack[ts.id]; s != nil && want >= starts[ts.id] && lastIdx != want && !a.observedAfter(s, list[len(list)-1].msn) {
+					// a segment that was completed and slid out of the window inside one Write call (several
+					// rotations in it) may hold the units in question
+					a.o.w.r.Probe("end-unobservable")
+				} else if want >= starts[ts.id] && lastIdx != want {
 					a.fail("end", fmt.Sprintf("%s-%v", ts.kind, ts.leading), "track %d (%s): complete segments end with unit %d, expected %d (last rotation at call %d)",
 						ts.id, ts.kind, lastIdx, want, lastCutCall)
 					return
